@@ -10,8 +10,8 @@ from . import engine as E
 BUILTINS = {'len', 'int', 'str', 'bool', 'min', 'max', 'sum', 'abs', 'list', 'tuple', 'set', 'frozenset', 'dict', 'zip',
             'enumerate', 'reversed', 'range', 'isinstance', 'any', 'all', 'sorted', 'repr', 'print', 'iter', 'next',
             'bytes', 'float', 'id', 'hash', 'type', 'getattr', 'hasattr', 'divmod', 'chr', 'ord', 'format', 'super',
-            'callable', 'object', 'NotImplemented'}
-SPEC_BUILTINS = {'forall', 'exists', 'implies', 'iff', 'old', 'ite', 'seq_get', 'subset', 'setof', 'distinct', 'is_prefix',
+            'callable', 'object', 'NotImplemented', 'round'}
+SPEC_BUILTINS = {'allocated', 'forall', 'exists', 'implies', 'iff', 'old', 'ite', 'seq_get', 'subset', 'setof', 'distinct', 'is_prefix',
                  'is_none', 'some', 'emptyset', 'set_add', 'set_remove', 'seq_take', 'seq_drop', 'index_of', 'card',
                  'str_len', 'str_at', 'str_contains', 'str_indexof', 'str_prefixof', 'str_suffixof', 'str_sub',
                  'str_replace_first', 'domain', 'map_get', 'unchanged', 'map_same_except', 'heap_same', 'heap_same_except', 'map_same', 'okey', 'opos', 'oval', 'osame', 'oprefix', 'fun_set', 'has_flag', 'in_re_pat', 'in_re', 'int_to_str', 'str_to_int', 'str_lt', 'str_le'}
@@ -72,9 +72,43 @@ def call_builtin(ex, name, args, kwargs, node):
     if name == 'sum':
         start = kwargs.get('start', args[1] if len(args) > 1 else vint(0))
         return _fold_sum(ex, ex.iter_of(args[0]), ex.val(start), node)
+    if name == 'iter' and len(args) == 1: return args[0] if isinstance(args[0], (E.IterV, E.MapIterV)) else ex.iter_of(args[0])
+    if name == 'next' and len(args) == 1:
+        a = args[0]
+        if isinstance(a, E.MapIterV):      # first element of an unordered map: some element
+            mp = a.m
+            if ex.branch(mp.t[2] == 0, exceptional=True): ex.raise_exc('StopIteration')
+            k = T.havoc(mp.ty.k, 'nextkey', facts := [])
+            for f in facts: ex.assume(f)
+            ex.assume(z3.Select(mp.t[0], pack(k)))
+            v_ = unpack(z3.Select(mp.t[1], pack(k)), mp.ty.v)
+            return k if a.kind == 'keys' else (v_ if a.kind == 'values' else V(TTuple([mp.ty.k, mp.ty.v]), [k, v_]))
+        if isinstance(a, E.IterV):
+            if ex.branch(a.ln == 0, exceptional=True): ex.raise_exc('StopIteration')
+            return a.get(z3.IntVal(0))
+        raise Unsupported('next() of %s' % type(a).__name__)
+    if name == 'round' and len(args) == 1:
+        a = ex.val(args[0])
+        if a.ty is TInt: return a
+        ex.vf.note_assumption('round(float) treated as an arbitrary integer')
+        return vint(fresh('round', z3.IntSort()))
+    if name == 'float' and len(args) == 1:
+        a = ex.val(args[0])
+        if a.ty is T.TFloat: return a
+        if a.ty in (TInt, TBool): return coerce(a, T.TFloat)
+        ex.vf.note_assumption('float(str) treated as an arbitrary float (inf / nan not modelled)')
+        return V(T.TFloat, fresh('flt', z3.RealSort()))
     if name in ('list', 'tuple'):
         if not args: return V(TTuple([]), [])
         a = args[0]
+        if isinstance(a, E.MapIterV):      # the keys / values / items of an unordered map, in some order
+            mp = a.m; kf = fresh('mkeys', z3.ArraySort(z3.IntSort(), T.sort_of(mp.ty.k))); i = fresh('mi', z3.IntSort()); j = fresh('mj', z3.IntSort())
+            ex.assume(z3.ForAll([i], z3.Implies(z3.And(i >= 0, i < mp.t[2]), z3.Select(mp.t[0], kf[i]))))
+            ex.assume(z3.ForAll([i, j], z3.Implies(z3.And(i >= 0, i < j, j < mp.t[2]), kf[i] != kf[j])))
+            def el(ix):
+                k = unpack(kf[ix], mp.ty.k); v_ = unpack(z3.Select(mp.t[1], kf[ix]), mp.ty.v)
+                return k if a.kind == 'keys' else (v_ if a.kind == 'values' else V(TTuple([mp.ty.k, mp.ty.v]), [k, v_]))
+            return ex.materialize(E.IterV(mp.t[2], el, None))
         if isinstance(a, E.IterV): return ex.materialize(a)
         a = ex.val(a)
         if isinstance(a.ty, (TSeq, TTuple)): return a
@@ -125,6 +159,11 @@ def call_builtin(ex, name, args, kwargs, node):
         rng = z3.And(i >= 0, i < it.ln)
         if name == 'any': return vbool(z3.Exists([i], z3.And(rng, body)))
         return vbool(z3.ForAll([i], z3.Implies(rng, body)))
+    if name == 'getattr' and len(args) == 3:
+        uni = [t_ for t_ in ex.w.types.values() if isinstance(t_, T.TRef) and t_.universal]
+        if uni:
+            ex.vf.note_assumption('getattr(obj, name, default) with a default: result treated as an arbitrary object')
+            return V(uni[0], fresh('getattr', T.sort_of(uni[0])))
     if name == 'type' and len(args) == 1:
         a0 = ex.val(args[0])
         if isinstance(a0.ty, TRef) and not a0.ty.universal and a0.ty.cls in ex.w.class_src:
@@ -147,7 +186,7 @@ def call_builtin(ex, name, args, kwargs, node):
     if name in ('dict', 'immutables.Map'):
         if not args and not kwargs: return V(TTuple([]), [])
         raise Unsupported('dict(...)')
-    if name in ('collections.defaultdict', 'defaultdict', 'collections.OrderedDict', 'OrderedDict'):
+    if name in ('collections.defaultdict', 'defaultdict', 'collections.OrderedDict', 'OrderedDict') or (name in ('collections.deque', 'deque') and not args):
         return V(TTuple([]), [])
     if name in ('typing.cast', 'cast'): return args[1]
     if name == 're.compile':
@@ -485,6 +524,30 @@ def _seq_method(ex, bm, recv, name, args, kwargs):
         return vint(r)
     if name == 'clear':
         ex.assign(bm.recv_node, V(recv.ty, (z3.IntVal(0), arr))); return NONE
+    if name in ('sort', 'reverse'):      # a permutation of the same elements (the order itself is not modelled)
+        ex.vf.note_assumption('list.%s() modelled as an unspecified rearrangement of the same elements' % name)
+        facts = []; nv = T.havoc(recv.ty, 'sorted', facts)
+        for f in facts: ex.assume(f)
+        i = fresh('qi', z3.IntSort()); j = fresh('qj', z3.IntSort())
+        ex.assume(nv.t[0] == ln)
+        ex.assume(z3.ForAll([i], z3.Implies(z3.And(i >= 0, i < ln), z3.Exists([j], z3.And(j >= 0, j < ln, nv.t[1][i] == arr[j])))))
+        ex.assign(bm.recv_node, nv); return NONE
+    if name == 'popleft':        # collections.deque
+        if ex.branch(ln == 0, exceptional=True): ex.raise_exc('IndexError')
+        i = fresh('ci', z3.IntSort())
+        ex.assign(bm.recv_node, V(recv.ty, (ln - 1, z3.Lambda([i], arr[i + 1])))); return seq_get(recv, 0)
+    if name == 'appendleft':
+        x = coerce(args[0], ety); i = fresh('ci', z3.IntSort())
+        ex.assign(bm.recv_node, V(recv.ty, (ln + 1, z3.Lambda([i], z3.If(i == 0, pack(x), arr[i - 1]))))); return NONE
+    if name == 'remove':
+        x = args[0]; i = fresh('qi', z3.IntSort())
+        has = ex.contains(recv, x)
+        if ex.branch(z3.Not(has), exceptional=True): ex.raise_exc('ValueError')
+        r = fresh('idx', z3.IntSort())
+        ex.assume(z3.And(r >= 0, r < ln, veq(seq_get(recv, r), x)))
+        ex.assume(z3.ForAll([i], z3.Implies(z3.And(i >= 0, i < r), z3.Not(veq(seq_get(recv, i), x)))))
+        j = fresh('ci', z3.IntSort())
+        ex.assign(bm.recv_node, V(recv.ty, (ln - 1, z3.Lambda([j], z3.If(j < r, arr[j], arr[j + 1]))))); return NONE
     raise Unsupported('list.%s' % name)
 
 def _set_method(ex, bm, recv, name, args, kwargs):
@@ -575,6 +638,16 @@ def map_del(ex, recv, k, strict):
 
 def _map_method(ex, bm, recv, name, args, kwargs):
     ty = recv.ty; dom, val, card = recv.t
+    if name == 'move_to_end':        # OrderedDict modelled as an unordered map: only the KeyError is observable
+        kt = pack(coerce(args[0], ty.k))
+        if ex.branch(z3.Not(z3.Select(dom, kt)), exceptional=True): ex.raise_exc('KeyError')
+        return NONE
+    if name == 'popitem':            # some (key, value) pair -- which one is not modelled
+        if ex.branch(card == 0, exceptional=True): ex.raise_exc('KeyError')
+        k = T.havoc(ty.k, 'popkey', []); kt = pack(k)
+        ex.assume(z3.Select(dom, kt))
+        r = V(TTuple([ty.k, ty.v]), [k, unpack(z3.Select(val, kt), ty.v)])
+        ex.assign(bm.recv_node, map_del(ex, recv, k, strict=False)); return r
     if name == 'get':
         dflt = args[1] if len(args) > 1 else kwargs.get('default', NONE)
         a0 = ex.val(args[0])
@@ -639,6 +712,10 @@ def call_spec(ex, name, args, kwargs, node):
     if name == 'ite': return vite(truth(a[0]), a[1], a[2])
     if name in ('forall', 'exists'):
         return _quant(ex, name, a)
+    if name == 'allocated':      # the object exists (was constructed earlier): a freshly constructed object differs from every allocated one
+        a0 = ex.val(args[0])
+        if ex.st.alloc is None: ex.st.alloc = ex.vf.alloc0()
+        return vbool(z3.Select(ex.st.alloc, a0.t))
     if name == 'is_none':
         v = a[0]
         return vbool(v.t[0] if isinstance(v.ty, TOpt) else z3.BoolVal(v.ty is TNone))
@@ -728,21 +805,26 @@ def _quant(ex, name, a):
     lam = a[-1]
     if not isinstance(lam, E.LambdaV): raise Unsupported('%s needs a lambda' % name)
     params = [p.arg for p in lam.node.args.args]
+    depth = ex.qdepth
     def body(bind):
         saved = ex.st.env
         ex.st.env = dict(lam.env); ex.st.env.update(saved); ex.st.env.update(bind)
+        ex.qdepth += 1
         try: return truth(ex.val(ex.eval(lam.node.body)))
-        finally: ex.st.env = saved
+        finally: ex.st.env = saved; ex.qdepth -= 1
+    # bound variables get canonical names (parameter name + nesting depth): evaluating the same clause over the same state
+    # yields the identical term, which prove() recognises among the hypotheses
+    def bconst(pname, sort): return z3.Const('%s!q%d' % (pname, depth), sort)
     if len(a) == 3 and not isinstance(a[0], E.TypeObj):
         lo, hi = coerce(a[0], TInt).t, coerce(a[1], TInt).t
-        i = fresh(params[0], z3.IntSort())
+        i = bconst(params[0], z3.IntSort())
         b = body({params[0]: vint(i)}); rng = z3.And(i >= lo, i < hi)
         return vbool(z3.ForAll([i], z3.Implies(rng, b)) if name == 'forall' else z3.Exists([i], z3.And(rng, b)))
     dom = a[0]
     if isinstance(dom, E.TypeObj):
         tys = [x.ty for x in a[:-1]]
         facts = []
-        xs = [havoc(t, p, facts) for t, p in zip(tys, params)]
+        xs = [V(t, bconst(p, T.sort_of(t))) if (isinstance(t, (T.TRef, T.TAny, T.TEnum)) or t in (TInt, TStr, TBool)) else havoc(t, p, facts) for t, p in zip(tys, params)]
         b = body(dict(zip(params, xs)))
         consts = _consts_of(xs)
         if facts: b = z3.Implies(z3.And(*facts), b) if name == 'forall' else z3.And(*(facts + [b]))
